@@ -535,7 +535,7 @@ def check_field_ranges(ctx, rule):
             continue
         rbb, rt = reads[k]
         R = Ranges(B)
-        oks = [bb for bb, j, st in B.stmts() if st['k'] == '=' and st['pl']['l'] == 0 and not st['pl'].get('p') and st['rv']['k'] == 'agg' and st['rv'].get('var') == 'Ok']
+        oks = [bb for bb, j, st in B.stmts() if st['k'] == '=' and B.is_ret_slot(st['pl']['l']) and not st['pl'].get('p') and st['rv']['k'] == 'agg' and st['rv'].get('var') == 'Ok']
         got = None
         for ob in oks:
             for kk, vv in R.facts_at(ob).items():
